@@ -117,7 +117,11 @@ func runsFor(prop, tier string) []run {
 		c2.InitOps = []string{"W:0:16", "SnapU", "W:0:8", "SnapA", "W:8:8", "SnapA"}
 		c2.MaxSnaps = 5
 		c2.MaxWrites = 5
-		return []run{{"2blk-mgmt", c, pick(5, 6), minutes(pickf(1.8, 10))}, {"2blk-mgmt-from-chain3", c2, pick(4, 5), minutes(pickf(1.5, 10))}}
+		c3 := c
+		c3.InitOps = []string{"W:0:16", "SnapA", "W:0:8", "SnapA", "W:8:8", "SnapU", "W:4:8", "SnapA", "W:0:8"}
+		c3.MaxSnaps = 6
+		c3.MaxWrites = 7
+		return []run{{"2blk-mgmt", c, pick(5, 6), minutes(pickf(1.4, 10))}, {"2blk-mgmt-from-chain3", c2, pick(4, 5), minutes(pickf(1.0, 10))}, {"2blk-mgmt-from-auto-chain4", c3, pick(3, 5), minutes(pickf(0.9, 8))}}
 	case "C17":
 		alpha := []string{"Close", "Open", "Mode:RW", "Mode:WO", "Mode:junk", "Rebuild:t", "Rebuild:f", "Reload", "W", "R", "Sync", "Unmap", "SnapA", "SetRev:9", "RmGate", "Mark", "Rm", "RevertUnknown", "SnapDup", "Shrink", "ResizeGarbage", "RmHead", "RmRawLatest", "RmUnknown"}
 		c := ea.Cfg{Blocks: 2, Alphabet: alpha, WShapes: [][2]int{{0, 8}}, RShapes: [][2]int{{0, 16}}, Oracles: []string{"rev", "read"}, MaxSnaps: 3, MaxWrites: 4,
